@@ -192,6 +192,30 @@ def run(ctx):
             if g != w:
                 ctx.mismatch(stream="conversions", request=q, model_says=got, code_says=want)
     ctx.extra["model_conversions_compared"] = len(reqs)
+    # ---- a conversion is a function of the VALUE: an instant that was looked at (fields, text, comparisons, an earlier conversion) and
+    # then moved by arithmetic converts exactly like a fresh object with the same tick count --------------------------------------------
+    import hightime as _ht
+    looks = [("year", lambda x: x.year), ("str", str), ("repr", repr), ("eq-hightime", lambda x: x == _ht.datetime(2025, 1, 1, tzinfo=dt.timezone.utc)),
+             ("to-hightime", lambda x: convert_datetime(_ht.datetime, x)), ("to-datetime", lambda x: convert_datetime(dt.datetime, x)), ("hash", hash), ("none", lambda x: None)]
+    moves = [("+1ms", lambda x: x + dt.timedelta(milliseconds=1)), ("+1ms x3", lambda x: ((x + dt.timedelta(milliseconds=1)) + dt.timedelta(milliseconds=1)) + dt.timedelta(milliseconds=1)),
+             ("-100us (hightime)", lambda x: x - _ht.timedelta(microseconds=100)), ("radd 1/3 s", lambda x: _ht.timedelta(seconds=1) // 3 + x),
+             ("+ticks", lambda x: x + bt.TimeDelta.from_ticks(12345678901234567)), ("-1fs x2", lambda x: (x - _ht.timedelta(femtoseconds=1)) - _ht.timedelta(femtoseconds=1))]
+    for base_ticks in (bt.DateTime(2025, 1, 1, tzinfo=dt.timezone.utc).ticks, bt.DateTime(1999, 12, 31, 23, 59, 59, tzinfo=dt.timezone.utc).ticks + 12345, 7 << 60):
+        for lname, look in looks:
+            for mname, move in moves:
+                x = bt.DateTime.from_ticks(base_ticks)
+                look(x)
+                r = move(x)
+                look(r) if lname in ("year", "str") else None
+                r2 = move(bt.DateTime.from_ticks(base_ticks))          # never looked at
+                fresh = bt.DateTime.from_ticks(r.ticks)
+                ctx.case(("history-independent", base_ticks, lname, mname))
+                for tname, T_ in (("hightime", _ht.datetime), ("datetime", dt.datetime)):
+                    a_, b_, c_ = convert_datetime(T_, r), convert_datetime(T_, fresh), convert_datetime(T_, r2)
+                    if not (a_ == b_ == c_) or r.ticks != r2.ticks or str(r) != str(fresh):
+                        ctx.violation(conv=f"btDt->{tname} after arithmetic on an instant that was looked at", looked_at_through=lname, arithmetic=mname, value=str(r.ticks),
+                                      observed=f"{a_!r} (text {str(r)})"[:200], required=f"{b_!r} - what a fresh DateTime with the same ticks converts to (text {str(fresh)})"[:260])
+                        break
     # ---- round trips ----------------------------------------------------------------------------
     for k, t in srcs["btTd"][: 4 * n]:
         x = bt.TimeDelta.from_ticks(t)
